@@ -139,3 +139,26 @@ func TestSolveFirstBlock(t *testing.T) {
 		}
 	}
 }
+
+// SealParallel against the standard library's GCM over AES: sizes around the chunking boundaries, up to 1 MiB+.
+func TestSealParallelAgainstStdlib(t *testing.T) {
+	r := rand.New(rand.NewSource(2))
+	for i, n := range []int{0, 1, 15, 16, 17, 1023, 1024, 1025, 4096 + 11, 100*1024 + 5, 1<<20 + 5, 1<<20 + 16 + 9} {
+		k := make([]byte, 16)
+		r.Read(k)
+		c, _ := aes.NewCipher(k)
+		pt := make([]byte, n)
+		aad := make([]byte, r.Intn(50))
+		iv := make([]byte, 12)
+		r.Read(pt)
+		r.Read(aad)
+		r.Read(iv)
+		a, _ := cipher.NewGCM(c)
+		want := a.Seal(nil, iv, pt, aad)
+		for _, w := range []int{1, 3, 16} {
+			if got := SealParallel(c, iv, pt, aad, 16, w); !bytes.Equal(got, want) {
+				t.Fatalf("case %d (n=%d, workers=%d): mismatch", i, n, w)
+			}
+		}
+	}
+}
